@@ -22,7 +22,8 @@ def final_entries(out, ref):
     per_group = [len(ref.solves(g)) for g in out.group_names]
     n_eval = sum(per_group)
     # evaluations: optimize (1), calculate_penalty in create_result (2), then per group calculate+create_result_data
-    pos = 2 * n_eval
+    # (optimize may hold several evaluations: out.n_log_eval entries were logged when it returned)
+    pos = out.n_log_eval + n_eval
     res = {}
     for g, n in zip(out.group_names, per_group):
         res[g] = out.log.entries[pos : pos + n]
@@ -60,7 +61,7 @@ class ResultData(Contract):
         return harness.build(S, case["_cfg"])
 
     def call(self, S, case, b):
-        return run_optimizer(S, b, S.symbolic, create_result=True)
+        return run_optimizer(S, b, S.symbolic, create_result=True, post_evals=1)
 
     def observe(self, out):
         return out if isinstance(out, Raised) else None
